@@ -3,6 +3,7 @@
 package pfcp
 
 import (
+	"net"
 	"github.com/wmnsk/go-pfcp/ie"
 	"github.com/wmnsk/go-pfcp/message"
 
@@ -173,7 +174,11 @@ func zzC09Crossed() {
 	// earlier expiries that were handled normally: k retransmissions
 	k := nondetChoice("earlier-expiries", 2)
 	for i := 0; i < k && i < maxr; i++ {
-		zzAssert("C09.crossed.timer-armed", zzFireTimer(tx.timer))
+		f := zzFireTimer(tx.timer)
+		zzAssert("C09.crossed.timer-armed", f)
+		if !f {
+			return
+		}
 		to := <-s.trToCh
 		if t, ok := s.txTrans[to.TrID]; ok {
 			t.handleTimeout()
@@ -183,6 +188,9 @@ func zzC09Crossed() {
 	// now the timer fires AND the response arrives
 	fired := zzFireTimer(tx.timer)
 	zzAssert("C09.crossed.timer-armed", fired)
+	if !fired {
+		return // without the expiry there is nothing to cross
+	}
 	rsp := message.NewSessionReportResponse(0, 0, ss.LocalID, h.seq, 0, ie.NewCause(ie.CauseRequestAccepted))
 	handleRsp := func() {
 		if t := zzFindTx(s, zzAddrA, rsp.Sequence()); t != nil {
@@ -220,3 +228,52 @@ func zzC09Crossed() {
 }
 
 func ZZ_C09_Crossed() { zzC09Crossed() }
+
+// The first transmission of a request fails at the socket (the one failure the environment models
+// and the native build reproduces: the UPF's socket is bound to a loop-back address and cannot send
+// to 192.0.2.9). The
+// request is outstanding all the same: its retransmission timer runs, it is retried the configured
+// number of times and then abandoned and released - it must not stay registered for ever without a
+// timer.
+func zzC09FirstWriteFails() {
+	w := zzNewWorld(zzFAR, false)
+	s := w.s
+	maxr := nondetChoice("maxretrans", 3)
+	s.cfg.Pfcp.MaxRetrans = uint8(maxr)
+	const bc = "192.0.2.9"
+	bcAddr := &net.UDPAddr{IP: net.IPv4(192, 0, 2, 9), Port: 8805}
+	n := s.NewNode(bc, bcAddr, w.dp)
+	s.rnodes[bc] = n
+	ss := n.NewSess(0x70)
+	info := &URRInfo{}
+	info.VOLUM = true
+	ss.URRIDs[1] = info
+	s.txSeq = nondetU32("txseq")
+	c0 := s.txSeq
+	s.ServeReport(&report.SessReport{SEID: ss.LocalID, Reports: []report.Report{report.USAReport{URRID: 1}}})
+	zzAssert("C09.writefail.nothing-delivered", zzSentCount() == 0)
+	zzAssert("C09.writefail.registered", len(s.txTrans) == 1)
+	tx := zzFindTx(s, bcAddr, c0)
+	zzAssert("C09.writefail.found", tx != nil)
+	if tx == nil {
+		return
+	}
+	for i := 0; i <= maxr; i++ {
+		fired := zzFireTimer(tx.timer)
+		zzAssert("C09.writefail.timer-armed", fired)
+		if !fired {
+			break // nothing will ever arrive on the timeout channel
+		}
+		to := <-s.trToCh
+		if t, ok := s.txTrans[to.TrID]; ok {
+			t.handleTimeout()
+		}
+		if i < maxr {
+			zzAssert("C09.writefail.still-outstanding", len(s.txTrans) == 1)
+		}
+	}
+	zzAssert("C09.writefail.abandoned-and-released", len(s.txTrans) == 0)
+	zzCover("C09.writefail.done")
+}
+
+func ZZ_C09_FirstWriteFails() { zzC09FirstWriteFails() }
